@@ -277,6 +277,8 @@ def run_ops(image, ops, pristine=None):
                 else:
                     streams[c] = open_stream(op['kind'], data, op['off'], None, op.get('base', 0) if op['kind'] == 'virt' else 0)
                 bases[c] = op.get('base', 0) if op['kind'] == 'virt' else 0
+                if op['kind'] == 'osfile':
+                    stats['osfile:unflushed-write'] = stats.get('osfile:unflushed-write', 0) + 1
                 if op['kind'] in ('file', 'osfile'):
                     handles[c] = streams[c][1]
                 if streams[c][0].offset != bases[c] + op['off']:
@@ -325,6 +327,7 @@ def run_ops(image, ops, pristine=None):
             if shared_attr is not None:
                 shared_attr['opmode'] = s.A.u16 if mode == 16 else s.A.u32
                 a = shared_attr
+                stats['shared-attrib-dict'] = stats.get('shared-attrib-dict', 0) + 1
             mine = outcome(lambda: s.A.x86mnemo.dis(st, a) if a else s.A.x86mnemo.dis(st))
             fresh = outcome(lambda: dis_bytes(data[off:], mode))
             if mine[0] != fresh[0] or (mine[0] == 'exc' and mine[1] != fresh[1]):
